@@ -453,6 +453,27 @@ class R1:
 
 
 
+def constant_fields(F):
+    """Class invariants of the analysed configuration: {`this.<field>` key: value} for integral data members whose
+    every write in the library (assignments and constructor initialisers) stores the same integer literal."""
+    vals = {}
+    for f in F.funcs.values():
+        if "/src/" not in f.file:
+            continue
+        for it in f.inits:
+            if it.get("member") and it.get("init") is not None:
+                v = C._lit(it["init"])
+                vals.setdefault(it.get("mq") or it["member"], set()).add(v)
+        for w, tgt in lvalue_writes(f):
+            t = X.strip(tgt)
+            if t["k"] == "MemberExpr" and t.get("dk") == "Field" and X.is_int_type(f.type(t)):
+                if w["k"] == "BinaryOperator" and w["op"] == "=":
+                    vals.setdefault(t["q"], set()).add(C._lit(X.kids(w)[1]))
+                else:
+                    vals.setdefault(t["q"], set()).add(None)
+    return {q: next(iter(v)) for q, v in vals.items() if len(v) == 1 and None not in v}
+
+
 class R2:
     """No hazardous use downstream of a non-returning rejection."""
     rid = "C10-R2"
@@ -506,9 +527,15 @@ class R2:
         F, rep = self.F, self.rep
         rep.rule(self.rid, self.text)
         results = {}
+        consts = constant_fields(F)
         for f in F.funcs.values():
             if "/src/" not in f.file:
                 continue
+            inv = set()
+            if f.cls:
+                for q, v in consts.items():
+                    if q.rsplit("::", 1)[0] == f.cls:
+                        inv.add(("eq", "this." + q.rsplit("::", 1)[1], repr(v)))
             errs = [n for n in f.walk() if is_error_call(n) and not is_bug_error(n)]
             if not errs or not f.cfg.ok:
                 continue
@@ -526,6 +553,11 @@ class R2:
             for e in errs:
                 gs = f.cfg.guards(e)
                 if not gs:
+                    continue
+                # a rejection that contradicts a class invariant of this configuration is dead code
+                # (e.g. the `m_num_threads != 1` branch of a build without a threading library)
+                if inv and any(C.contradicts(C.facts(f, f.nodes[cid], pol, res), inv) for cid, pol in gs):
+                    rep.count("rejection_sites_dead_by_invariant")
                     continue
                 # does the error branch fall through to later code?
                 rep.count("rejection_sites")
